@@ -1,7 +1,82 @@
 package main
 
-// runThorough: extra work of the thorough tier (checker self-validation by
-// source overlays). Filled in by selfcheck.go.
+import (
+	"fmt"
+	"sort"
+)
+
+// extraConfigs: build configurations analysed in addition to the default one in
+// the thorough tier, so that every build-tagged source file of pion/ice is
+// covered by some run (internal/netutil/errno_windows.go is the only file the
+// default configuration does not see; 386 exercises 32-bit int/uint sizes in
+// the arithmetic rules).
+var extraConfigs = []struct {
+	Name string
+	Env  []string
+}{
+	{"windows/amd64", []string{"GOOS=windows", "GOARCH=amd64", "CGO_ENABLED=0"}},
+	{"linux/386", []string{"GOOS=linux", "GOARCH=386", "CGO_ENABLED=0"}},
+}
+
 func runThorough(id string, p *Prog, r *Report, repo string) {
+	// (a) the same rules on the other build configurations
+	r.curRule = "CFG"
+	r.RuleTexts["CFG"] = "The property's rules hold on every build configuration that selects different source files or type sizes (windows/amd64, linux/386), not only on the default one."
+	r.ruleOrder = append(r.ruleOrder, "CFG")
+	var cfgs []string
+	for _, c := range extraConfigs {
+		env := append([]string{"GOFLAGS=-mod=mod", "GOPROXY=off", "GOWORK=off"}, c.Env...)
+		q, err := Load(repo, env, nil)
+		if err != nil {
+			r.Unknown("configuration "+c.Name, "", "cannot load/type-check: "+err.Error())
+			continue
+		}
+		q.Config = c.Name
+		sub := NewReport(id, "thorough", 0, q)
+		func() {
+			defer func() {
+				if x := recover(); x != nil {
+					sub.Fatal = append(sub.Fatal, fmt.Sprintf("internal panic: %v", x))
+				}
+			}()
+			registry[id].Run(q, sub)
+		}()
+		bad := 0
+		for _, o := range sub.Obls {
+			if o.Status == Discharged {
+				continue
+			}
+			if o.Status == Violated && knownListed(id, o.Rule, o.Construct) {
+				continue // reported once, by the default configuration
+			}
+			bad++
+			r.add(o.Status, "["+c.Name+"] "+o.Rule+" "+o.Construct, o.Pos, o.Detail, false)
+		}
+		for _, f := range sub.Fatal {
+			bad++
+			r.Unknown("configuration "+c.Name, "", f)
+		}
+		if bad == 0 {
+			r.OK("configuration "+c.Name, "", fmt.Sprintf("%d obligations, all discharged (or listed known findings); %d functions", len(sub.Obls), len(q.AllFuncs)))
+		}
+		cfgs = append(cfgs, c.Name)
+	}
+	sort.Strings(cfgs)
+	r.Extra["extra_build_configs"] = cfgs
+	// (b) the checker validates itself against the overlay catalogue
 	selfValidate(id, p, r, repo)
+}
+
+var knownGlobal *KnownFile
+
+func knownListed(prop, rule, construct string) bool {
+	if knownGlobal == nil {
+		return false
+	}
+	for _, k := range knownGlobal.Findings {
+		if k.Property == prop && k.Rule == rule && k.Construct == construct {
+			return true
+		}
+	}
+	return false
 }
